@@ -147,3 +147,283 @@ def r17_2(ctx):
                 ctx.ok(('set_state', 'arg'))
             else:
                 ctx.bad('set_state|value', f"set_state stores {show(o)} instead of its argument", body=b, line=w['line'])
+
+
+def set_state_sites(body, variant):
+    out = []
+    for bi, c, args, dest, tgt, ln in call_sites(body, FN + 'set_state'):
+        if const_variant_arg(body, args[1]) == variant:
+            out.append(bi)
+    return out
+
+
+def partition_run(ctx, body, state=None, control=None, ack=None):
+    cache = ctx.run.__dict__.setdefault('_prt', {})
+    key = (ctx.cfg, body.key, state, control, ack)
+    if key in cache:
+        return cache[key]
+    an = FDAI(ctx.F)
+    init = {}
+    if state is not None:
+        init[fkey(SOCK, 'state', 1)] = frozenset([state])
+    if control is not None:
+        init[fkey(REPR, 'control', 4)] = frozenset([control])
+    if ack is not None:
+        init[fkey(REPR, 'ack_number', 4)] = frozenset([ack])
+    r = an.run(body, init)
+    cache[key] = r
+    return r
+
+
+ACK_LEAFS = [f"F:{REPR}.ack_number"]
+ISS_LEAFS = [f"F:{SOCK}.local_seq_no", "K:1"]
+
+
+@rule('R17.3', ['C17'], floor=8, clause='ESTABLISHED only behind ack == ISS+1; FIN-WAIT-2 / TIME-WAIT / CLOSED-from-LAST-ACK only behind the ack-of-own-FIN flag, itself only set behind the FIN-acknowledged comparison')
+def r17_3(ctx):
+    """T1 under fdai partitions (state x control): every feasible path to a set_state(Established)
+    site passes an edge where `repr.ack_number == self.local_seq_no + 1` holds; the sites entering
+    FinWait2 / TimeWait(from Closing or FinWait1 with the ack-of-fin branch) / Closed(from LastAck)
+    pass the true edge of a bool whose only `true` store is behind `tx_buffer.len()+1 == ack_len`."""
+    F = ctx.F
+    b = ctx.body(FN + 'process')
+    est = set_state_sites(b, 'Established')
+    ctx.need(len(est) >= 2, "two set_state(Established) sites in tcp::process")
+    eq_edges = rel_edges(F, b, 'eq', ACK_LEAFS, ISS_LEAFS)
+    ctx.need(eq_edges, "a comparison ack_number == local_seq_no + 1 in tcp::process")
+    controls = F.variants(CTRL)
+    for S in F.variants(STATE):
+        r0 = partition_run(ctx, b, S)
+        if not feasible_sites(b, est, r0.edge_ok()):
+            ctx.ok(('est-infeasible', S))
+            continue
+        for C in controls:
+            for A in ('Some', 'None'):
+                r = partition_run(ctx, b, S, C, A)
+                ok = r.edge_ok()
+                feas = feasible_sites(b, est, ok)
+                for s in feas:
+                    badp = cut_sites(b, [s], eq_edges, ok)
+                    if badp:
+                        ctx.bad(f"process|Established|{S}|{C}|{A}",
+                                f"ESTABLISHED can be entered from {S} on control={C} (ack {A}) without passing "
+                                f"`ack_number == local_seq_no + 1`", body=b, bb=s, path=badp[0][1])
+                    else:
+                        ctx.ok(('est', S, C, A), sample=dict(site_line=b.block_line(s), state=S, control=C, ack=A,
+                                                             guard='ack==ISS+1'))
+    # ack-of-FIN flag
+    fin_edges = rel_edges(F, b, 'eq', ["C:storage::ring_buffer::RingBuffer::<'a, T>::len", f"F:{SOCK}.tx_buffer", "K:1"],
+                          ACK_LEAFS + [f"F:{SOCK}.local_seq_no"])
+    ctx.need(fin_edges, "comparison tx_buffer.len() + 1 == ack_len in tcp::process")
+    table = [('FinWait1', 'None', 'FinWait2'), ('FinWait1', 'Fin', 'TimeWait'), ('Closing', 'None', 'TimeWait'),
+             ('LastAck', 'None', 'Closed')]
+    for (S, C, T) in table:
+        r = partition_run(ctx, b, S, C)
+        ok = r.edge_ok()
+        sites = feasible_sites(b, set_state_sites(b, T), ok)
+        if not sites:
+            ctx.bad(f"process|{S}|{C}|{T}|nosite", f"no feasible set_state({T}) site for ({S},{C}) - table row vanished", body=b)
+            continue
+        dg = derived_guard_edges(b, fin_edges, ok)
+        for s in sites:
+            badp = cut_sites(b, [s], dg, ok)
+            if badp:
+                ctx.bad(f"process|{S}|{C}|{T}|ackfin",
+                        f"{S} -> {T} on control={C} reachable without the acknowledgment-of-own-FIN condition "
+                        f"(tx_buffer.len()+1 == acked length)", body=b, bb=s, path=badp[0][1])
+            else:
+                ctx.ok(('ackfin', S, C, T), sample=dict(frm=S, control=C, to=T, guard='ack_of_fin'))
+    # the flag can only become true when a FIN was sent: in states that have not sent a FIN the
+    # FIN-acknowledged edge itself must be infeasible
+    sent_fin_states = {'FinWait1', 'LastAck', 'Closing'}
+    for S in F.variants(STATE):
+        if S in sent_fin_states:
+            continue
+        r = partition_run(ctx, b, S)
+        feas = [e for e in fin_edges if e in r.feasible]
+        if feas:
+            ctx.bad(f"process|ackfin-feasible|{S}", f"`ack of FIN` comparison is reachable in state {S} which has not sent a FIN",
+                    body=b, bb=feas[0][0])
+        else:
+            ctx.ok(('nofin', S))
+
+
+@rule('R17.4', ['C17'], floor=9, clause='RST resets a connection only via the in-window edge (or ack == ISS+1 in SYN-SENT)')
+def r17_4(ctx):
+    """T1 under fdai partitions (state, control=Rst): every feasible path to a state store passes
+    (SYN-SENT) the ack==ISS+1 edge or (synchronised states) the true edge of the segment-in-window
+    flag, whose `true` stores are all behind comparisons of RCV.NXT with the segment's sequence."""
+    F = ctx.F
+    b = ctx.body(FN + 'process')
+    ss = [bi for bi, *_ in call_sites(b, FN + 'set_state')]
+    eq_edges = rel_edges(F, b, 'eq', ACK_LEAFS, ISS_LEAFS)
+    WS = [f"F:{SOCK}.remote_seq_no"]
+    SEG = [f"F:{REPR}.seq_number"]
+    win = rel_edges(F, b, 'le_or_eq', WS, SEG, either_order=True)
+    ctx.need(win, "window-start vs segment sequence comparisons in tcp::process")
+    for S in F.variants(STATE):
+        r = partition_run(ctx, b, S, 'Rst')
+        ok = r.edge_ok()
+        sites = feasible_sites(b, ss, ok)
+        if S in ('Listen', 'Closed'):
+            if S == 'Listen' and sites:
+                ctx.bad("process|Listen|Rst", "a RST changes the state of a LISTEN socket", body=b, bb=sites[0])
+            else:
+                ctx.ok(('rst', S))
+            continue
+        if not sites:
+            ctx.bad(f"process|{S}|Rst|nosite", f"no state store reachable for RST in {S} (analysis blind)", body=b)
+            continue
+        if S == 'SynSent':
+            g = set(eq_edges)
+            what = 'ack_number == local_seq_no + 1'
+        else:
+            g = derived_guard_edges(b, win, ok)
+            what = 'segment in receive window'
+        for s in sites:
+            badp = cut_sites(b, [s], g, ok)
+            if badp:
+                ctx.bad(f"process|{S}|Rst|unguarded", f"RST in {S} reaches a state change without `{what}`",
+                        body=b, bb=s, path=badp[0][1])
+            else:
+                ctx.ok(('rst', S), sample=dict(state=S, control='Rst', guard=what, site_line=b.block_line(s)))
+
+
+@rule('R17.5', ['C17'], floor=5, clause='TIME-WAIT delay is the 10 s constant; Timer::Close armed only by set_for_close at TIME-WAIT entry/refresh; expiry closes')
+def r17_5(ctx):
+    F = ctx.F
+    cd = F.const_value('socket::tcp::CLOSE_DELAY')
+    ctx.need(cd is not None, "const socket::tcp::CLOSE_DELAY")
+    if cd.get('fields') == [10_000_000]:
+        ctx.ok(('CLOSE_DELAY',), sample=dict(const='CLOSE_DELAY', micros=cd['fields'][0]))
+    else:
+        ctx.bad('CLOSE_DELAY', f"CLOSE_DELAY is {cd} (expected 10 s = 10000000 us)")
+    # Timer::Close constructed only in set_for_close, with expires_at = arg + CLOSE_DELAY
+    T = 'socket::tcp::Timer'
+    sfc = ctx.body('socket::tcp::Timer::set_for_close')
+    n = 0
+    for k, b in F.bodies.items():
+        for bi, bl in enumerate(b.blocks):
+            if bl['cl']:
+                continue
+            for si, s in enumerate(bl['s']):
+                if s[0] == 'a' and s[2][0] == 'agg' and s[2][1]['k'] == 'adt' and s[2][1]['adt'] == T \
+                        and s[2][1]['variant'] == 'Close':
+                    n += 1
+                    if k != 'socket::tcp::Timer::set_for_close':
+                        ctx.bad(f"{k}|Timer::Close", f"Timer::Close constructed outside set_for_close in {k}", body=b, bb=bi)
+                        continue
+                    o = F.origin.operand(b, s[2][2][0], bi, si)
+                    ls = leafs(o)
+                    if 'A:2' in ls and 'N:socket::tcp::CLOSE_DELAY' in ls and any('Add' in x for x in ls if x.startswith('C:')):
+                        ctx.ok(('set_for_close', 'expires_at'), sample=dict(expires_at=show(o)))
+                    else:
+                        ctx.bad('set_for_close|expires_at', f"Timer::Close.expires_at = {show(o)} is not `timestamp + CLOSE_DELAY`",
+                                body=b, bb=bi)
+    ctx.need(n >= 1, "construction of Timer::Close")
+    # callers of set_for_close: only tcp::process, and each call site is in a partition whose state
+    # is TimeWait after/at the call
+    callers = F.callers('socket::tcp::Timer::set_for_close')
+    for c in sorted(callers):
+        if c == FN + 'process':
+            ctx.ok(('caller', c))
+        else:
+            ctx.bad(f"{c}|set_for_close", f"set_for_close called from {c} (only tcp::process may arm the TIME-WAIT timer)",
+                    body=F.body(c))
+    p = ctx.body(FN + 'process')
+    for S in F.variants(STATE):
+        r = partition_run(ctx, p, S)
+        for bi, c, args, dest, tgt, ln in call_sites(p, 'socket::tcp::Timer::set_for_close'):
+            st = r.instate[bi]
+            if st is None:
+                continue
+            v = st.get(fkey(SOCK, 'state', 1))
+            if v is not None and v == frozenset(['TimeWait']):
+                ctx.ok(('close-armed', S, ln if False else bi))
+            else:
+                ctx.bad(f"process|set_for_close|{S}", f"TIME-WAIT timer armed while state may be {sorted(v) if v else 'unknown'} (from {S})",
+                        body=p, bb=bi)
+    # should_close: true only for Timer::Close behind timestamp >= expires_at ; dispatch: reset behind should_close
+    sc = ctx.body('socket::tcp::Timer::should_close')
+    ge = rel_edges(F, sc, 'gt', ['A:2'], [f"F:{T}.expires_at"], either_order=True)
+    ctx.need(ge, "comparison timestamp >= expires_at in Timer::should_close")
+    ctx.ok(('should_close', 'cmp'))
+    d = ctx.body(FN + 'dispatch')
+    sce = bool_call_edges(F, d, lambda n: n == 'socket::tcp::Timer::should_close', True)
+    ctx.need(sce, "dispatch tests Timer::should_close")
+    ctx.ok(('dispatch', 'should_close'))
+
+
+@rule('R17.5b', ['C17'], floor=3, clause='every entry into TIME-WAIT arms the 10 s close timer before returning')
+def r17_5b(ctx):
+    """T2 pairing: after each set_state(TimeWait) in tcp::process every path to a return passes
+    Timer::set_for_close."""
+    p = ctx.body(FN + 'process')
+    sites = set_state_sites(p, 'TimeWait')
+    ctx.need(len(sites) >= 3, "three TIME-WAIT entry sites in tcp::process")
+    for s in sites:
+        bad = always_followed_by(p, s, {'socket::tcp::Timer::set_for_close'})
+        if bad:
+            ctx.bad(f"process|TimeWait-entry|no-close-timer|{entry_label(ctx, p, s)}",
+                    "TIME-WAIT entered without arming the close timer on some path to return "
+                    "(TIME-WAIT would not end by itself after 10 s)", body=p, bb=s, path=bad[0])
+        else:
+            ctx.ok(('tw-arm', entry_label(ctx, p, s)), sample=dict(site_line=p.block_line(s), then='set_for_close'))
+
+
+def entry_label(ctx, p, site):
+    """stable label of a set_state site: the (from-state, control) pairs under which it is feasible"""
+    labs = []
+    for S in ctx.F.variants(STATE):
+        r = partition_run(ctx, p, S)
+        if r.instate[site] is not None:
+            labs.append(S)
+    return '+'.join(labs)
+
+
+RESET_TABLE = {
+    # field -> required origin (None = any value, must just be written)
+    'state': ('variant', f'{STATE}::Closed'),
+    'listen_endpoint': None,
+    'tuple': ('variant', 'std::option::Option::None'),
+    'timer': None,
+    'rx_fin_received': ('const', 'false'),
+    'local_seq_no': None, 'remote_seq_no': None, 'remote_last_seq': None,
+    'remote_last_ack': ('variant', 'std::option::Option::None'),
+    'remote_last_win': None, 'remote_win_len': None, 'remote_win_scale': None, 'remote_win_shift': None,
+    'remote_mss': None, 'remote_last_ts': None, 'assembler': None,
+}
+
+
+@rule('R17.6', ['C17', 'C01', 'C04'], floor=10, clause='reset() re-initialises every connection-scoped field on every path (state=Closed, tuple=None, listen_endpoint default, timer, sequence variables)')
+def r17_6(ctx):
+    """T3 must-write: tcp::Socket::reset stores every field of the reviewed table on all paths.
+    (`listen_endpoint` left stale lets a RST turn an actively opened SYN-RECEIVED socket into LISTEN.)"""
+    b = ctx.body(FN + 'reset')
+    mw = must_write_fields(ctx.F, b, SOCK)
+    for f, want in RESET_TABLE.items():
+        if f not in mw:
+            ctx.bad(f"reset|{f}", f"tcp::Socket::reset does not (on every path) re-initialise `{f}`", body=b)
+            continue
+        if want is not None:
+            bi, si = mw[f][0]
+            if si == 'T':
+                ctx.bad(f"reset|{f}|value", f"reset stores a call result into `{f}`, expected {want}", body=b, bb=bi)
+                continue
+            o = strip(ctx.F.origin.rvalue(b, b.blocks[bi]['s'][si][2], bi, si, 0, None))
+            if o == want:
+                ctx.ok(('reset', f), sample=dict(field=f, value=show(o)))
+            else:
+                ctx.bad(f"reset|{f}|value", f"reset stores {show(o)} into `{f}`, expected {want[1]}", body=b, bb=bi)
+        else:
+            ctx.ok(('reset', f))
+    # listen_endpoint default: IpListenEndpoint::default() -> port 0
+    bi, si = mw.get('listen_endpoint', [(None, None)])[0]
+    if bi is not None:
+        if si == 'T':
+            t = b.blocks[bi]['t']
+            nm = b.callee_name(t[1])
+            if nm and 'IpListenEndpoint' in nm and nm.endswith('default'):
+                ctx.ok(('reset', 'listen_endpoint', 'default'))
+            else:
+                ctx.bad('reset|listen_endpoint|value', f"reset stores {nm}() into listen_endpoint, expected IpListenEndpoint::default()", body=b, bb=bi)
